@@ -55,6 +55,9 @@ class HumanMessageSerializer:
         cur_block = None
         msg = None
         lines = [x.strip() for x in string.split("\n") if x.strip()]
+        # Packed vars may need the values of sibling vars that come later in
+        # the block to pick a serializer, pack them once everything was read.
+        deferred_packed = []
         while lines:
             line = lines.pop(0)
             # Ignore comment / blank lines
@@ -129,9 +132,22 @@ class HumanMessageSerializer:
                     serializer = se.SUBFIELD_SERIALIZERS.get(ser_key)
                     if not serializer:
                         raise KeyError(f"No subfield serializer for {ser_key!r}")
-                    var_val = serializer.serialize(cur_block, var_val)
+                    deferred_packed.append((cur_block, var_name, var_val, serializer))
+                    continue
 
                 cur_block[var_name] = var_val
+
+        while deferred_packed:
+            failed = []
+            for block, var_name, var_val, serializer in deferred_packed:
+                try:
+                    block[var_name] = serializer.serialize(block, var_val)
+                except Exception as e:
+                    failed.append(((block, var_name, var_val, serializer), e))
+            # Packed vars may depend on each other, retry as long as we make progress
+            if len(failed) == len(deferred_packed):
+                raise failed[0][1]
+            deferred_packed = [x[0] for x in failed]
         return msg
 
     @classmethod
